@@ -61,8 +61,6 @@ from explorerscript.ssb_converting.ssb_data_types import (
 from explorerscript.ssb_converting.ssb_decompiler import ExplorerScriptSsbDecompiler
 from explorerscript.util import open_utf8, exps_int
 
-counter = Counter()
-
 
 class OpDict(TypedDict):
     params: list[ParamDict]
@@ -90,7 +88,10 @@ def parse_pos_mark_arg(arg_str: str) -> tuple[int, int]:
     return exps_int(arg_str_arr[0]), 2
 
 
-def read_ops(ops: list[OpDict]) -> list[SsbOperation]:
+def read_ops(ops: list[OpDict], counter: Counter | None = None) -> list[SsbOperation]:
+    """counter numbers the ops across the routines of one document (1-based)."""
+    if counter is None:
+        counter = Counter()
     out_ops: list[SsbOperation] = []
 
     for op in ops:
@@ -133,6 +134,8 @@ def read_routines(
     routines: list[RoutineDict],
 ) -> tuple[list[SsbRoutineInfo], list[SsbCoroutine], MutableSequence[MutableSequence[SsbOperation]]]:
     routine_infos = []
+    # Ops are numbered per document; a module level counter kept counting across calls.
+    counter = Counter()
     named_coroutines = []
     routine_ops: MutableSequence[MutableSequence[SsbOperation]] = []
     for r in routines:
@@ -146,11 +149,11 @@ def read_routines(
             # The decompilers look the name up by the index of the routine.
             named_coroutines.append(SsbCoroutine(len(routine_infos), r["name"]))
             routine_infos.append(SsbRoutineInfo(SsbRoutineType.COROUTINE, -1))
-            routine_ops.append(read_ops(r["ops"]))
+            routine_ops.append(read_ops(r["ops"], counter))
         elif r["type"] == "GENERIC":
             named_coroutines.append(SsbCoroutine(-1, "n/a"))
             routine_infos.append(SsbRoutineInfo(SsbRoutineType.GENERIC, -1))
-            routine_ops.append(read_ops(r["ops"]))
+            routine_ops.append(read_ops(r["ops"], counter))
         elif r["type"] == "ACTOR":
             if "target_id" not in r:
                 raise ValueError("Target for a routine not set.")
@@ -162,7 +165,7 @@ def read_routines(
                 linked_to_name = str(r["target_id"])
             named_coroutines.append(SsbCoroutine(-1, "n/a"))
             routine_infos.append(SsbRoutineInfo(SsbRoutineType.ACTOR, linked_to, linked_to_name))
-            routine_ops.append(read_ops(r["ops"]))
+            routine_ops.append(read_ops(r["ops"], counter))
         elif r["type"] == "OBJECT":
             if "target_id" not in r:
                 raise ValueError("Target for a routine not set.")
@@ -174,7 +177,7 @@ def read_routines(
                 linked_to_name = str(r["target_id"])
             named_coroutines.append(SsbCoroutine(-1, "n/a"))
             routine_infos.append(SsbRoutineInfo(SsbRoutineType.OBJECT, linked_to, linked_to_name))
-            routine_ops.append(read_ops(r["ops"]))
+            routine_ops.append(read_ops(r["ops"], counter))
         elif r["type"] == "PERFORMER":
             if "target_id" not in r:
                 raise ValueError("Target for a routine not set.")
@@ -186,7 +189,7 @@ def read_routines(
                 linked_to_name = str(r["target_id"])
             named_coroutines.append(SsbCoroutine(-1, "n/a"))
             routine_infos.append(SsbRoutineInfo(SsbRoutineType.PERFORMER, linked_to, linked_to_name))
-            routine_ops.append(read_ops(r["ops"]))
+            routine_ops.append(read_ops(r["ops"], counter))
         else:
             raise ValueError(f"Invalid type for a routine: {r['type']}.")
 
